@@ -12,8 +12,9 @@ THEOREM = ("Ufo2ft.C14.C14_report / C14_footprint / C14_holds / C14_exclusive / 
            "C14_ifootprint / C14_ireport / C14_iholds / C14_istateless / C14_run_report / C14_run_refresh / "
            "C14_run_footprint / C14_run_route / C14_run_holds / dc_footprint / dc_report / dc_holds / dc_source_glyphs / "
            "dottedCircle_writes_source / ex_footprint / ex_holds_footprint / ex_reported_unchanged / explode_underreports / "
-           "explode_writes_source / explode_adds / c2q_holds / c2q_stateless / c2q_again / c2q_converted_noop / c2q_remembered")
-PROOF_FILES = ["C14", "C14Run", "C14Special", "C14Cu2qu"]
+           "explode_writes_source / explode_adds / c2q_holds / c2q_stateless / c2q_again / c2q_converted_noop / c2q_remembered / "
+           "C14_entry_given / C14_entry_holds / C14_entry_empty / C14_entry_empty_holds")
+PROOF_FILES = ["C14", "C14Run", "C14Special", "C14Cu2qu", "C14Entry"]
 N = {"quick": 700, "thorough": 14000}
 RULE = ("every shipped filter class: decomposeComponents, decomposeTransformedComponents, flattenComponents, propagateAnchors, "
         "transformations, reverseContourDirection, sortContours, skipExportGlyphs (modelled in full, glyph content compared "
@@ -198,6 +199,7 @@ def _gen_opaque(rng, mode, fname):
 
 
 C2Q_KEY = "com.github.googlei18n.cu2qu.curve_type"
+EMPTY_LAYER = "C14.sparse"
 
 
 def _gen_c2q(rng, mode):
@@ -218,6 +220,24 @@ def _gen_c2q(rng, mode):
                 lib[C2Q_KEY] = "quadratic"
             elif r < 0.23:
                 lib[C2Q_KEY] = "conic"                 # NotImplementedError
+    return case
+
+
+def _gen_emptygs(rng, mode):
+    """a SEPARATE glyph set that has no glyphs in it (what is left of a sparse layer after pruning, an empty brace
+    layer handed to a pre-processor with inplace=False, a caller passing {}): 'emptycopy' = _GlyphSet.from_layer(font,
+    <empty layer>, copy=True), 'emptydict' = {}.  One filter object over 1-3 fonts, each step with its own kind of glyph
+    set (at least one empty, the others ordinary copies), so that empty-then-full and full-then-empty histories occur."""
+    fname = rng.choice([f for f in TRANSPARENT for _ in range(3)] + list(OPAQUE))
+    case = _gen_transparent(rng, mode, fname) if fname in TRANSPARENT else _gen_opaque(rng, mode, fname)
+    case["gsmode"] = "copy"
+    k = rng.randrange(len(case["fonts"]))
+    for i, fd in enumerate(case["fonts"]):
+        if i == k or rng.random() < 0.4:
+            fd["gsmode"] = rng.choice(["emptycopy", "emptydict"])
+        else:
+            fd["gsmode"] = rng.choice(["copy", "dict"])
+    case["emptygs"] = True
     return case
 
 
@@ -478,6 +498,10 @@ def gen(rng, n, mode):
     sub2 = random.Random(rng.getrandbits(64))
     for _ in range(max(12, n // 16)):
         yield _gen_c2q(sub2, mode)
+    # a separate glyph set WITHOUT glyphs (drawn last: the streams above are unchanged)
+    sub3 = random.Random(rng.getrandbits(64))
+    for _ in range(max(16, n // 14)):
+        yield _gen_emptygs(sub3, mode)
 
 
 # ------------------------------------------------------------------------------------------------ running
@@ -543,13 +567,19 @@ def _invoke_raw(filt, fd, case):
     font = build(fd, case["ulib"])
     for k, v in fd.get("layerlib", {}).items():
         font.layers.defaultLayer.lib[k] = v
-    mode = case["gsmode"]
+    mode = fd.get("gsmode", case["gsmode"])          # a step of the 'emptygs' stream names its own kind of glyph set
+    if mode == "emptycopy":
+        font.newLayer(EMPTY_LAYER)                  # part of the source font: created before the first snapshot
 
     keep = []           # (defcon glyphs reach their font through a weak reference: keep the fonts of the copies alive)
 
     def copies():
         if mode == "copy":
             return _GlyphSet.from_layer(font, copy=True)
+        if mode == "emptycopy":
+            return _GlyphSet.from_layer(font, EMPTY_LAYER, copy=True)
+        if mode == "emptydict":
+            return {}
         if mode == "dict":
             other = build(json.loads(json.dumps(fd)), case["ulib"])
             keep.append(other)
@@ -570,6 +600,7 @@ def _invoke_raw(filt, fd, case):
     elif case["filter"] == "explodeColorLayers":
         sp_in = SP.ex_before(font, view)
     err, modified = None, None
+    ctx0 = getattr(filt, "context", None)
     try:
         if filt is None:
             raise MemoryError
@@ -597,6 +628,11 @@ def _invoke_raw(filt, fd, case):
         err = err or type(e).__name__
         src = []
     obs = {"err": err, "src": src}
+    if gs is not None and sp_in is None and filt is not None:
+        # which object the filter worked on: BaseFilter.__call__ stores it in self.context (None = no context was set)
+        # a context that is the one of an earlier call says nothing about this one (early return / error before set_context)
+        ctx = getattr(filt, "context", None)
+        obs["onGiven"] = None if ctx is None or ctx is ctx0 or not hasattr(ctx, "glyphSet") else bool(ctx.glyphSet is gs)
     if err is None:
         obs["modified"] = modified
         obs["after"] = after
@@ -869,6 +905,15 @@ def run(case):
             tags.append("again")
             if o["again"]["err"] is None and o["again"]["modified"]:
                 tags.append("again:changed>0")
+    for fd, fin, o in zip(case["fonts"], fins, calls):
+        if "gsmode" in fd:
+            tags.append("gs:" + fd["gsmode"])
+            if fd["gsmode"].startswith("empty"):
+                tags.append("E:empty-separate")
+                if o.get("modified"):
+                    tags.append("E:reported-on-empty")
+        if o.get("onGiven") is not None:
+            tags.append("onGiven:" + str(o["onGiven"]))
     for fin in fins:
         if fin.get("c2q"):
             tags.append("c2q:remember" if fin["c2q"]["remember"] else "c2q:plain")
@@ -882,6 +927,8 @@ def run(case):
             nontrivial = True
         if ch and "again" in calls[i]:
             nontrivial = True
+    if any(fd.get("gsmode", "").startswith("empty") and fd["glyphs"] for fd in case["fonts"]):
+        nontrivial = True      # an empty separate glyph set next to a source font that has glyphs
     req = {"op": "special" if fname in DECLARED else "seq",
            "in": {"filter": lean_filter, "opts": opts, "inc": inc, "separate": case["gsmode"] != "inplace",
                   "fonts": fins, "impl": fname, "exact": case["exact"], "realInc": case["inc"]},
@@ -1262,3 +1309,29 @@ LEVEL_NOTE = ("Trusted: Lean kernel + propext/Classical.choice/Quot.sound; corre
               "untouched' and 'a second run of the same object on the same source font with new copies gives the same "
               "outcome' are PREDICATES ON OBSERVATIONS (holdsSource / holdsAgain evaluated by the Lean driver) - the "
               "second run exists only for the cubicToQuadratic stream, not for the other classes.")
+
+# ---- round 5: a separate glyph set that has no glyphs in it (entry of BaseFilter.__call__) ----
+RULE += (" EMPTY SEPARATE GLYPH SET (max(16, n/14) further cases, tags 'E:*', 'gs:emptycopy' / 'gs:emptydict', 'onGiven:*'): one "
+         "object of a transparent class (weight 3 each) or of removeOverlaps / cubicToQuadratic over 1-3 fonts, every step "
+         "with its own kind of separate glyph set: at least one step (others with p=0.4) gets a glyph set WITHOUT glyphs - "
+         "_GlyphSet.from_layer(font, <an empty extra layer of the source font>, copy=True) or {} -, the remaining steps "
+         "ordinary copies (_GlyphSet copy / independent dict), so that empty-first and empty-after-full histories of one "
+         "object occur; every step also on a new object. Observed in addition, for every call of the 'seq' streams with a "
+         "separate glyph set: whether filter.context.glyphSet IS the object that was given ('onGiven'; not observed when "
+         "the call left no new context). non-trivial there = an empty glyph set next to a source font that has glyphs.")
+ASSUMED += [
+    "entry of BaseFilter.__call__: the view _GlyphSet.from_layer(font) of the default layer is an input of the model "
+    "(Model/C14Entry.entryGlyphSet); that the filter works on the glyph set it was given is observed as object identity "
+    "filter.context.glyphSet is glyphSet (Spec.holdsEntry, predicate on observations; of the model: C14_entry_given / "
+    "C14_entry_holds); the interpolatable variants and the classes with a __call__ of their own are covered by the "
+    "source-font snapshot only",
+]
+LEVEL_TEXT += (" Entry of the call (Props/C14Entry): a glyph set that was given is the one worked on, whatever it contains "
+               "(C14_entry_given, C14_entry_holds); on an EMPTY given glyph set every class returns the empty set and leaves "
+               "the glyph set empty, the font's default layer playing no part (C14_entry_empty, C14_entry_empty_holds; "
+               "skipExportGlyphs([]) excluded: it raises / returns the stale set before the entry, C14_skipExport_empty).")
+LEVEL_NOTE += (" Empty separate glyph sets: the source font is a snapshot diff (holdsSource / holdsEmptyCall: glyph set still "
+               "empty, nothing of the font changed), the object worked on is observed by identity (holdsEntry) - both are "
+               "predicates on observations evaluated by the Lean driver; returned set and glyph set are compared with the "
+               "model exactly. At the pre-processor level (op 'prun') no master / layer is ever empty (lib_C14run keeps at "
+               "least one glyph per master): an empty sparse master in the per-master route is NOT generated.")
